@@ -4,7 +4,10 @@ package tor
 
 import (
 	"context"
+	"math/rand/v2"
 	"net/netip"
+
+	"github.com/jech/storrent/config"
 
 	"github.com/jech/storrent/hash"
 	"github.com/jech/storrent/peer"
@@ -189,4 +192,42 @@ func H_C05_meta2() {
 		vAssert(err == nil, "a metadata message never stops the torrent")
 	}
 	vReach("both-handled")
+}
+
+// the torrent's synchronous queries of a peer, answered by the peer's REAL event handler
+func vGetFast(p *peer.Peer) []uint32 {
+	ch := make(chan []uint32, 1)
+	peer.VHandleEvent(p, peer.PeerGetFast{Ch: ch})
+	return <-ch
+}
+func vGetHave(p *peer.Peer, index uint32) bool {
+	ch := make(chan bool, 1)
+	peer.VHandleEvent(p, peer.PeerGetHave{Index: index, Ch: ch})
+	return <-ch
+}
+
+// H_C05_idle_fast: what a message leaves behind in the peer is consumed later by the torrent's
+// scheduler: a fast-capable peer sends AllowedFast with ANY index (and has advertised any
+// pieces); then the idle prefetcher picks pieces (real pickIdlePieces, the peer's fast list and
+// bitmap read through the peer's real event handler): it must not crash.
+func H_C05_idle_fast() {
+	t := vLiveTorrent()
+	config.MemoryMark = 1 << 30
+	t.rand = rand.New(rand.NewPCG(1, 2))
+	p := peer.VNewPeer(&t.Pieces, t.Event)
+	peer.VSetFast(p, vBool("fast"))
+	pb := vBytes("pb", 1)
+	for k := 0; k < 8; k++ {
+		vAssume(vImp(k >= t.Pieces.Num(), !peer.VGet(pb, k)))
+	}
+	peer.VSetBitmap(p, pb)
+	t.peers = []*peer.Peer{p}
+	err := peer.VHandleMessage(p, protocol.AllowedFast{Index: vU32("mi")})
+	if err != nil {
+		vReach("refused")
+		return
+	}
+	vDrain(t)
+	pickIdlePieces(t, vChoose("count", 1, 2)) // a panic is the violation
+	vReach("picked")
 }
